@@ -242,6 +242,14 @@ def propagate_locals(fn):
     for n in ast.walk(fn):
         if isinstance(n, ast.Name) and isinstance(n.ctx, ast.Store):
             stores[n.id] = stores.get(n.id, 0) + 1
+        # a name whose object may be mutated (method call on it, element / attribute store, in-place operator)
+        # is not a constant
+        if isinstance(n, ast.Call) and isinstance(n.func, ast.Attribute) and isinstance(n.func.value, ast.Name):
+            stores[n.func.value.id] = stores.get(n.func.value.id, 0) + 2
+        if isinstance(n, (ast.Subscript, ast.Attribute)) and isinstance(n.ctx, (ast.Store, ast.Del)) and isinstance(n.value, ast.Name):
+            stores[n.value.id] = stores.get(n.value.id, 0) + 2
+        if isinstance(n, ast.AugAssign) and isinstance(n.target, ast.Name):
+            stores[n.target.id] = stores.get(n.target.id, 0) + 2
     env = {}
 
     def strip(block):
